@@ -184,6 +184,7 @@ class SvsWorld(World):
     def op_stop(self, op):
         try:
             self.inst.stop()
+            self.stats['fault.stop'] += 1
             self.log('stop', ok=True)
         except Exception as e:
             self.log('stop', ok=False, exc=exc_brief(e))
@@ -209,6 +210,11 @@ class SvsWorld(World):
             name = [bytes(c) for c in self.base]
         wire = bytes(enc.make_interest(name, enc.InterestParam(lifetime=1000, nonce=op['nonce']), b'',
                                        signer=DigestSha256Signer(for_interest=True)))
+        if op.get('kind', 'ok') != 'ok' or op.get('extra_comp') or op.get('short') or not op['sv'] \
+                or any(n is None or q is None for n, q in op['sv']):
+            self.stats['fault.malformed_vector'] += 1
+        elif any(n == SELF and q is not None and q > self.inst.self_seq for n, q in op['sv']):
+            self.stats['fault.overclaiming_vector'] += 1
         self.log('rx', nonce=op['nonce'], sv=op['sv'], vkind=op.get('kind', 'ok'), extra=bool(op.get('extra_comp')),
                  short=bool(op.get('short')), delivered=self.face.deliver(wire), state=self.inst.state.name)
         self.tok('R')
